@@ -12,7 +12,7 @@
 (* A filter is [attr, op, arg]: op = "eq" (plain keyword) or one of the    *)
 (* twelve suffixes; arg is a value, a sequence of values (in / not_in) or  *)
 (* a pattern (like / not_like).  A pattern is a sequence of atoms          *)
-(* "^" | "$" | "." | 1 | 2 with the search semantics of regular            *)
+(* ^ (10) | $ (11) | . (12) | 1 | 2 with the search semantics of regular   *)
 (* expressions: it matches if it matches at SOME position.                 *)
 (***************************************************************************)
 EXTENDS Naturals, Integers, Sequences, FiniteSets, TLC
@@ -44,14 +44,15 @@ Less(x, y) == IF x.k = "int" THEN x.v < y.v ELSE SeqLess(x.v, y.v)
 
 ---------------------------------------------------------------------------
 (* regular-expression search over the two-letter alphabet *)
-AtomOk(atom, ch) == atom = "." \/ atom = ch
+Caret == 10   Dollar == 11   Dot == 12          \* atoms are numbers: TLC cannot compare strings with numbers
+AtomOk(atom, ch) == atom = Dot \/ atom = ch
 RECURSIVE MatchAt(_, _, _)
 (* does pattern p match string s starting at 1-based position i (consuming from there)? *)
 MatchAt(p, s, i) ==
     IF p = <<>> THEN TRUE
     ELSE LET h == Head(p) IN
-         IF h = "^" THEN i = 1 /\ MatchAt(Tail(p), s, i)
-         ELSE IF h = "$" THEN i = Len(s) + 1 /\ MatchAt(Tail(p), s, i)
+         IF h = Caret THEN i = 1 /\ MatchAt(Tail(p), s, i)
+         ELSE IF h = Dollar THEN i = Len(s) + 1 /\ MatchAt(Tail(p), s, i)
          ELSE i <= Len(s) /\ AtomOk(h, s[i]) /\ MatchAt(Tail(p), s, i + 1)
 Search(p, s) == \E i \in 1..(Len(s) + 1) : MatchAt(p, s, i)
 
